@@ -528,14 +528,14 @@ def model_expr(name: str, p, m, conv: Conv, info, before: str, base: int) -> str
     if name == "rmfunc":
         return f"(remove_unused_funcs_checked {FUEL} {before})"
     if name == "inline":
-        return f"(fst (fst (inline_pass {FUEL} {before} {base} {conv.next_g})))"
+        return f"(inline_pass_c {FUEL} {before} {base} {conv.next_g})"
     if name == "defattr":
         return f"(add_default_attrs {defaults_table(m, conv)} {FUEL} {before})"
     return None
 
 
 CASE_HEADER = """From Coq Require Import ZArith NArith List Bool.
-From IRV Require Import Base.Exn Gen.C05Gen C05.Model C05.Inline.
+From IRV Require Import Base.Exn Gen.C05Gen C05.Model C05.Inline C05.InlineCert C05.InlinePass.
 Import ListNotations.
 Open Scope N_scope.
 """
@@ -1319,10 +1319,10 @@ def run(ck) -> None:
                     "ShapeInference/RemoveUnusedOpsets are outside the term language (frame check).")
     generate(ck)
     ck.prove()
-    # the case files also use the executable inliner model (C05/Inline.v): make sure its .vo is current
-    rc, out = common.make(["theories/C05/Inline.vo"], timeout=600)
+    # the case files also use the executable inliner model (C05/Inline.v, InlinePass.v): make sure the .vo are current
+    rc, out = common.make(["theories/C05/InlinePass.vo"], timeout=600)
     if rc != 0:
-        ck.broken("build:C05/Inline.v", out[-2000:])
+        ck.broken("build:C05/InlinePass.v", out[-2000:])
     reported: set = set()
     # corpus first
     corpus = _corpus()
